@@ -1,5 +1,8 @@
 use crate::polynomials::{PolynomialError, structs::SimplePolynomial};
 
+// Largest exponent accepted: the coefficient vector is dense
+const MAX_POWER: usize = 1 << 16;
+
 pub fn parse_simple_polynomial<S>(input: S) -> Result<SimplePolynomial, PolynomialError>
 where
     S: AsRef<str>,
@@ -48,12 +51,13 @@ where
                     // x^1 value
                     (coeff, 1)
                 } else if let Some(pow_str) = rest.strip_prefix('^') {
-                    let power =
-                        pow_str
-                            .parse::<usize>()
-                            .map_err(|_| PolynomialError::InvalidExponent {
-                                pow: pow_str.to_string(),
-                            })?;
+                    let power = pow_str
+                        .parse::<usize>()
+                        .ok()
+                        .filter(|p| *p <= MAX_POWER)
+                        .ok_or_else(|| PolynomialError::InvalidExponent {
+                            pow: pow_str.to_string(),
+                        })?;
                     (coeff, power)
                 } else {
                     return Err(PolynomialError::UnexpectedChar {
